@@ -34,6 +34,137 @@ def _expect(node, text, what):
         raise TranslateError(f'{what}: expected `{text}`, found `{got}`')
 
 
+def _tr_satisfying(fn, var, evaluated_on, sets):
+    """the option plumbing of Mesh.<x>_satisfying as a Gallina body: the running value of `var`, filtered by the boundary set when
+    boundaries_only, returned (also from inside an `if normal is not None:` block).  sets: source text of the boundary set -> Coq name"""
+    cur, rets = None, []
+    for st in fn.body:
+        if isinstance(st, ast.Expr) and isinstance(st.value, ast.Constant):
+            continue
+        src = t2.src(st)
+        if isinstance(st, ast.Assign) and t2.src(st.targets[0]) == 'midp':
+            if src != evaluated_on:
+                raise TranslateError(f'{fn.name}: midpoints: {src}')
+            continue
+        if isinstance(st, ast.Assign) and t2.src(st.targets[0]) == var:
+            if src not in (f'{var} = np.nonzero(test(midp))[0].astype(np.int32)', evaluated_on):
+                raise TranslateError(f'{fn.name}: predicate set: {src}')
+            cur = 'pred'
+            continue
+        if isinstance(st, ast.If) and t2.src(st.test) == 'boundaries_only' and not st.orelse and len(st.body) == 1:
+            b = st.body[0]
+            hit = [c for k, c in sets.items() if t2.src(b) == f'{var} = np.intersect1d({var}, {k})']
+            if cur is None or not hit:
+                raise TranslateError(f'{fn.name}: boundaries_only branch: {src}')
+            cur = f'(if boundaries_only then inter {cur} {hit[0]} else {cur})'
+            continue
+        if isinstance(st, ast.If) and t2.src(st.test) == 'normal is not None' and not st.orelse:
+            r = st.body[-1]
+            if not (isinstance(r, ast.Return) and t2.src(r.value) == f'OrientedBoundary({var}, ori)') or cur is None or \
+                    any(isinstance(x, ast.Assign) and t2.src(x.targets[0]) == var for x in st.body):
+                raise TranslateError(f'{fn.name}: normal branch: {src[:120]}')
+            rets.append(('normal_given', cur))
+            continue
+        if isinstance(st, ast.Return) and t2.src(st.value) == var and cur is not None:
+            rets.append((None, cur))
+            break
+        raise TranslateError(f'{fn.name}: unsupported statement: {src[:120]}')
+    if not rets or rets[-1][0] is not None:
+        raise TranslateError(f'{fn.name}: no final return')
+    body = rets[-1][1]
+    for cond, val in reversed(rets[:-1]):
+        body = f'(if {cond} then {val} else {body})'
+    return body
+
+
+def translate_satisfying(mt=None):
+    """(facets body, nodes body) of the option plumbing of Mesh.facets_satisfying / nodes_satisfying; checks elements_satisfying"""
+    mt = mt or t2.parse('skfem/mesh/mesh.py')
+    f = t2.find_def(mt, 'facets_satisfying', 'Mesh')
+    if [a.arg for a in f.args.args] != ['self', 'test', 'boundaries_only', 'normal'] or [t2.src(d) for d in f.args.defaults] != ['False', 'None']:
+        raise TranslateError('facets_satisfying signature')
+    fs = _tr_satisfying(f, 'facets', 'midp = self.p[:, self.facets].mean(axis=1)', {'self.boundary_facets()': 'bfacets', 'self.boundary_nodes()': 'bnodes'})
+    f = t2.find_def(mt, 'nodes_satisfying', 'Mesh')
+    if [a.arg for a in f.args.args] != ['self', 'test', 'boundaries_only'] or [t2.src(d) for d in f.args.defaults] != ['False']:
+        raise TranslateError('nodes_satisfying signature')
+    ns = _tr_satisfying(f, 'nodes', 'nodes = np.nonzero(test(self.p[:, :self.nvertices]))[0].astype(np.int32)',
+                        {'self.boundary_facets()': 'bfacets', 'self.boundary_nodes()': 'bnodes'})
+    f = t2.find_def(mt, 'elements_satisfying', 'Mesh')
+    body = [t2.src(x) for x in f.body if not (isinstance(x, ast.Expr) and isinstance(x.value, ast.Constant))]
+    if body != ['midp = self.p[:, self.t].mean(axis=1)', 'return np.nonzero(test(midp))[0].astype(np.int32)']:
+        raise TranslateError('elements_satisfying body: ' + repr(body))
+    return fs, ns
+
+
+SATISFYING_DEFS = '''Definition gen_facets_satisfying (pred bfacets bnodes : list nat) (boundaries_only normal_given : bool) : list nat := {fs}.
+Definition gen_nodes_satisfying (pred bfacets bnodes : list nat) (boundaries_only : bool) : list nat := {ns}.
+Definition gen_elements_satisfying (pred : list nat) : list nat := pred.
+'''
+
+
+def translate_wrappers():
+    """Gallina definitions of the pure-plumbing wrappers: *_satisfying option handling, with_boundaries / with_subdomains dictionary
+    merge, DofsView.__or__ / __add__"""
+    mt = t2.parse('skfem/mesh/mesh.py')
+    dt = t2.parse(SRC)
+    fs, ns = translate_satisfying(mt)
+    # dictionary merges: the order of the ** parts
+    merges = {}
+    for nm, attr, new in (('with_boundaries', '_boundaries', 'boundaries'), ('with_subdomains', '_subdomains', 'subdomains')):
+        r = t2.only([x for x in t2.find_def(mt, nm, 'Mesh').body if isinstance(x, ast.Return)], nm + ' return')
+        c = r.value
+        kws = {k.arg: k.value for k in c.keywords} if isinstance(c, ast.Call) and t2.src(c.func) == 'replace' else {}
+        dct = kws.get(attr)
+        if not (isinstance(dct, ast.Dict) and all(k is None for k in dct.keys) and len(dct.values) == 2 and set(kws) == {attr}
+                and [t2.src(a) for a in c.args] == ['self']):
+            raise TranslateError(f'{nm}: expected replace(self, {attr}={{**old, **new}})')
+        parts = []
+        for v in dct.values:
+            sv = t2.src(v)
+            if sv == f'{{}} if self.{attr} is None else self.{attr}':
+                parts.append('old')
+            elif isinstance(v, ast.DictComp) and t2.src(v.generators[0].iter) == f'{new}.items()' and t2.src(v.key) == 'name':
+                parts.append('new')
+            else:
+                raise TranslateError(f'{nm}: dictionary part {sv[:100]}')
+        if sorted(parts) != ['new', 'old']:
+            raise TranslateError(f'{nm}: parts {parts}')
+        merges[nm] = parts
+    # DofsView.__or__ / __add__
+    cls = [n for n in ast.walk(dt) if isinstance(n, ast.ClassDef) and n.name == 'DofsView'][0]
+    orf = t2.find_def(cls, '__or__')
+    r = t2.only([x for x in orf.body if isinstance(x, ast.Return)], '__or__ return')
+    c = r.value
+    if not (isinstance(c, ast.Call) and t2.src(c.func) == 'replace' and [t2.src(a) for a in c.args] == ['self']):
+        raise TranslateError('DofsView.__or__: ' + t2.src(r)[:100])
+    fields = {}
+    allf = ['nodal_ix', 'facet_ix', 'edge_ix', 'interior_ix', 'nodal_rows', 'facet_rows', 'edge_rows', 'interior_rows']
+    for k in c.keywords:
+        v = k.value
+        ops = []
+        for a in (v.args if isinstance(v, ast.Call) and t2.src(v.func) == 'np.union1d' and not v.keywords else []):
+            if isinstance(a, ast.Attribute) and isinstance(a.value, ast.Name) and a.value.id in ('self', 'other') and a.attr in allf:
+                ops.append((a.attr, 'a' if a.value.id == 'self' else 'b'))
+        if len(ops) != 2 or len(v.args) != 2:
+            raise TranslateError('DofsView.__or__ field ' + str(k.arg) + ': ' + t2.src(v))
+        fields[k.arg] = ops
+    if set(fields) - set(allf):
+        raise TranslateError('DofsView.__or__ sets unknown fields ' + repr(sorted(fields)))
+    cap = lambda x: 'V_' + x
+    rec = '; '.join(f'{cap(x)} := ' + (f'union1d ({cap(fields[x][0][0])} {fields[x][0][1]}) ({cap(fields[x][1][0])} {fields[x][1][1]})' if x in fields else f'{cap(x)} a') for x in allf)
+    addf = t2.find_def(cls, '__add__')
+    if [t2.src(x) for x in addf.body] != ['return self.__or__(other)']:
+        raise TranslateError('DofsView.__add__: ' + repr([t2.src(x) for x in addf.body]))
+    mg = lambda parts: ' ++ '.join(reversed(parts))          # {**A, **B}: B is read first (later definition wins)
+    return f'''
+(* ---- wrappers (pure plumbing), regenerated from the source *)
+{SATISFYING_DEFS.format(fs=fs, ns=ns)}Definition gen_with_boundaries (old new : list (nat * list nat)) : list (nat * list nat) := {mg(merges['with_boundaries'])}.
+Definition gen_with_subdomains (old new : list (nat * list nat)) : list (nat * list nat) := {mg(merges['with_subdomains'])}.
+Definition gen_view_or (a b : view) : view := {{| {rec} |}}.
+Definition gen_view_add (a b : view) : view := gen_view_or a b.
+'''
+
+
 def translate():
     tree = t2.parse(SRC)
     fn = t2.find_def(tree, '_dofnames_to_rows', 'Dofs')
@@ -173,7 +304,7 @@ Definition gen_byname_offsets (n_nodal n_facet n_edge : nat) : offsets := ({bn['
 Definition gen_offsets (n_nodal n_facet n_edge : nat) : offsets :=
   (gen_name_index_facet n_nodal n_facet n_edge 0 0, gen_name_index_edge n_nodal n_facet n_edge 0 0,
    gen_name_index_interior n_nodal n_facet n_edge 0 0).
-'''
+''' + translate_wrappers()
 
 
 NAME_ORDER_POS = '''(* GENERATED: the name offsets read from the source are the basis-function order nodal, edge, facet, interior *)
@@ -414,8 +545,8 @@ Definition run (c : ctxt * list query) : list (option (list nat)) :=
         let w := match mode with 1 => keep D dofnames offs v names | 2 => drop D dofnames offs v names | _ => v end in
         enc_dict (view_by_name D w dofnames boffs kd)
     end in
-  let nF := normalize nf (Some bfac) false (tag_lookup (tag_history tagsF)) in
-  let nE := normalize nt None true (tag_lookup (tag_history tagsE)) in
+  let nF := normalize nf (Some bfac) false (tag_lookup (fold_left gen_with_boundaries tagsF [])) in
+  let nE := normalize nt None true (tag_lookup (fold_left gen_with_subdomains tagsE [])) in
   let nN := normalize nv None false (fun _ => None) in
   map (fun q =>
     match q with
@@ -424,7 +555,7 @@ Definition run (c : ctxt * list query) : list (option (list nat)) :=
     | QN s skip p => option_map (fun N => fin (get_vertex_dofs D dofnames offs N skip) p) (nN s)
     | QOrF a b skip =>
         match nF a, nF b with
-        | Some A, Some B => Some (flatten D (view_or (get_facet_dofs D dofnames offs nd ed fd facets f2e dim3 A skip)
+        | Some A, Some B => Some (flatten D (gen_view_add (get_facet_dofs D dofnames offs nd ed fd facets f2e dim3 A skip)
                                                      (get_facet_dofs D dofnames offs nd ed fd facets f2e dim3 B skip)))
         | _, _ => None
         end
@@ -606,7 +737,7 @@ API_C07 = {
     'covered_before': ['AbstractBasis.get_dofs (facets / elements / nodes / skip, dictionary form)', 'AbstractBasis.complement_dofs (one, several, dict)',
                        'Dofs.get_facet_dofs / get_element_dofs / get_vertex_dofs / _dofnames_to_rows / _by_name', 'DofsView.flatten / all / keep / drop / __or__ / '
                        'nodal / facet / edge / interior / __array__', 'Mesh._expand_facets', 'Mesh.normalize_facets / normalize_elements / normalize_nodes (all forms, '
-                       'empty collections, ints)', 'Mesh.with_boundaries / with_subdomains / with_defaults (histories)', 'Mesh.facets_satisfying / nodes_satisfying / '
+                       'empty collections, ints)', 'Mesh.with_boundaries / with_subdomains / with_defaults (histories; default tags on graded tensor meshes)', 'ElementVector.dofnames vs component/row layout (multi-DOF-per-entity bases)', 'Mesh.facets_satisfying / nodes_satisfying / '
                        'elements_satisfying (boundaries_only, normal)', 'MeshTri2 / MeshQuad2 / MeshTet2 contexts'],
     'covered_now': ['DofsView.__len__ / __add__ / sort / __str__', 'FacetBasis.get_dofs and CellBasis.with_elements(...).get_dofs (same answers as the full cell basis)',
                     'Mesh.normalize_nodes point form (tuple of coordinates)', 'get_dofs with an OrientedBoundary tag / facets_around result as selector',
@@ -911,6 +1042,10 @@ def run(ctx):
                     'evaluation of predicates on float midpoints (runtime part; the harness evaluates the same predicate on the same midpoints)']
     ctx.assumptions += ['name filters: the theorem is conditional on the name offsets being the basis-function order; that condition is a '
                         'separate generated obligation (Gen/C07NameOrder.v)']
+    ctx.assumptions += ['default tags (with_defaults): checked on tensor meshes graded the SAME way along every axis (isotropic cells at the corners, '
+                        'size ratio up to 1000:1), where tolerance min(params())/100 is right.  NOTE (observation, not checked): params() is the LONGEST edge per '
+                        'cell, so on strongly anisotropic boundary-layer meshes (cells thinner than 1/100 of their length at a side) the unchanged code '
+                        'already tags interior facets next to that side; such meshes are deliberately not generated']
     ctx.ensure_static()
     known = NAME_KEY in ctx.known.findings.get('C07', {})
     gen_ok = True
@@ -942,6 +1077,7 @@ def run(ctx):
     rng = np_seed(ctx, 7)
     cases = []
     nctx = 0
+    sat_meshes = []
     contexts = []
     for kind in M.KINDS:
         for name, fac in _elements_for(kind, ctx.quick(), rng):
@@ -957,6 +1093,8 @@ def run(ctx):
                 ctx.fail(f'elem={name}:basis-exception', f'Basis on {kind}/{name} raises {type(ex).__name__}: {ex}', {'kind': kind, 'element': name})
                 continue
             nctx += 1
+            if len(sat_meshes) < 40 and not any(k == kind and mm.t.shape == c.m.t.shape for k, mm in sat_meshes):
+                sat_meshes.append((kind, c.m))
             ctx.hist('kind', kind)
             ctx.hist('counts(nd,ed,fd,id)', c.counts)
             qs = make_queries(rng, c, ctx.n(10, 16))
@@ -1001,7 +1139,15 @@ def run(ctx):
             except Exception as ex:
                 import traceback
                 ctx.fail(f'elem={name}:{kind}:oracle-exception', f'{type(ex).__name__}: {ex}', {'kind': kind, 'element': name, 'tb': traceback.format_exc()[-600:]})
+    for fn, key in ((oracle_vector_names, 'names:vector-oracle-exception'), (oracle_default_tags, 'retag:default-tags-oracle-exception')):
+        try:
+            fn(ctx, rng)
+        except Exception as ex:
+            import traceback
+            ctx.fail(key, f'{type(ex).__name__}: {ex}', {'tb': traceback.format_exc()[-800:]})
     ctx.extra['api_coverage'] = API_C07
+    if gen_ok:
+        corr_wrappers(ctx, rng, sat_meshes)
     ctx.log(f'{nctx} contexts, {sum(len(c[2][2]) for c in cases)} queries')
     if gen_ok:
         bad = ctx.corr('get_dofs', 'Require Import Base.C11_Unique Model.C04_Dofs Model.C07_Query Gen.C04Gen Gen.C07Gen.\n'
@@ -1009,6 +1155,231 @@ def run(ctx):
                        per_file=min(400, -(-len(cases) // 4)), defs=CORR_DEFS)
         for i in bad or []:
             ctx.log('disagreeing context:', cases[i][2][0], cases[i][2][1])
+
+
+SAT_DEFS = '''
+Definition run_sat (c : list nat * list nat * list nat * list nat * list nat * (bool * bool)) :=
+  let '(predF, predN, predE, bfacets, bnodes, (bo, ng)) := c in
+  [gen_facets_satisfying predF bfacets bnodes bo ng; gen_nodes_satisfying predN bfacets bnodes bo; gen_elements_satisfying predE].
+'''
+
+
+def corr_wrappers(ctx, rng, meshes):
+    """the translated option plumbing of Mesh.facets_satisfying / nodes_satisfying / elements_satisfying against the real methods:
+    the predicate sets are computed here from the midpoints, the boundary sets are the mesh's own"""
+    cases = []
+    cb = lambda b: 'true' if b else 'false'
+    for kind, m in meshes:
+        for rep in range(3):
+            d = m.p.shape[0]
+            ax = int(rng.integers(d))
+            lo, hi = float(m.p[ax].min()), float(m.p[ax].max())
+            cut = lo + (hi - lo) * float(rng.choice([0.3, 0.5, 0.7, 1.1]))
+            sgn = int(rng.choice([-1, 1]))
+            test = lambda x, ax=ax, cut=cut, sgn=sgn: sgn * (x[ax] - cut) < 0
+            bo = bool(rng.integers(2))
+            ng = bool(rng.integers(2)) and d > 1
+            nrm = np.eye(d)[int(rng.integers(d))] if ng else None
+            predF = np.nonzero(test(m.p[:, m.facets].mean(axis=1)))[0]
+            predN = np.nonzero(test(m.p[:, :m.nvertices]))[0]
+            predE = np.nonzero(test(m.p[:, m.t].mean(axis=1)))[0]
+            try:
+                gotF = np.asarray(m.facets_satisfying(test, boundaries_only=bo, normal=nrm)) if ng else \
+                    np.asarray(m.facets_satisfying(test, boundaries_only=bo))
+                gotN = np.asarray(m.nodes_satisfying(test, boundaries_only=bo))
+                gotE = np.asarray(m.elements_satisfying(test))
+            except Exception as ex:
+                if ng:
+                    continue                     # degenerate normals on tiny meshes: not this property
+                ctx.fail(f'{kind}:satisfying-exception', f'*_satisfying raises {type(ex).__name__}: {ex}', {'kind': kind, 't': m.t.tolist()})
+                continue
+            nl = lambda a: cnats([int(x) for x in np.asarray(a).ravel().tolist()])
+            inp = f'({nl(predF)}, {nl(predN)}, {nl(predE)}, {nl(m.boundary_facets())}, {nl(m.boundary_nodes())}, ({cb(bo)}, {cb(ng)}))'
+            cases.append((inp, clist([nl(gotF), nl(gotN), nl(gotE)]), (kind, bo, ng, m.t.tolist())))
+            ctx.hist('satisfying(boundaries_only,normal)', (bo, ng))
+    bad = ctx.corr('satisfying', 'Require Import Model.C07_Query Gen.C07Gen.\nFrom Coq Require Import List Arith Bool.', 'run_sat', 'natss_eqb',
+                   cases, defs=SAT_DEFS)
+    for i in bad or []:
+        kind, bo, ng, t = cases[i][2]
+        ctx.log('disagreeing *_satisfying case:', kind, 'boundaries_only', bo, 'normal given', ng)
+
+
+def _local_names(elem, has_edges):
+    """names of the local basis functions in their order (nodal per vertex, edge, facet, interior) from element.dofnames"""
+    rd = elem.refdom
+    nd, ed, fd, idd = elem.nodal_dofs, elem.edge_dofs, elem.facet_dofs, elem.interior_dofs
+    dn = list(elem.dofnames)
+    out = []
+    out += [dn[k] for _ in range(rd.nnodes) for k in range(nd)]
+    off = nd
+    if has_edges:
+        out += [dn[off + k] for _ in range(rd.nedges) for k in range(ed)]
+        off += ed
+    out += [dn[off + k] for _ in range(rd.nfacets) for k in range(fd)]
+    off += fd
+    out += [dn[off + k] for k in range(idd)]
+    return out
+
+
+def oracle_vector_names(ctx, rng):
+    """ElementVector over base elements with SEVERAL DOFs per entity kind: the DOF named <name>^k must be the k-th component of the
+    base function called <name> — read off the basis functions themselves (which component is non-zero, which scalar base function
+    it equals), not off any table of names; then the queries by name (all / keep / drop / skip) are checked against that."""
+    import skfem
+    import skfem.element as E
+    from skfem import Basis
+    bases = [('line', 'ElementLineHermite', lambda: E.ElementLineHermite(), 2), ('line', 'ElementLinePp(3)', lambda: E.ElementLinePp(3), 2),
+             ('tri', 'ElementTriP3', lambda: E.ElementTriP3(), None), ('tri', 'ElementTriP4', lambda: E.ElementTriP4(), None),
+             ('quad', 'ElementQuadP(3)', lambda: E.ElementQuadP(3), None), ('tri', 'ElementTriP2', lambda: E.ElementTriP2(), 3),
+             ('tri', 'ElementTriHermite', lambda: E.ElementTriHermite(), None), ('tet', 'ElementTetP2', lambda: E.ElementTetP2(), None)]
+    for kind, bname, mk, n in bases:
+        try:
+            base = mk()
+            ev = E.ElementVector(base, n) if n else E.ElementVector(base)
+        except Exception:
+            continue                                         # class not exported by this version
+        m = M.gen_mesh(rng, kind, maxcells=6 if kind == 'tet' else 8)[0]
+        try:
+            vb = Basis(m, ev, intorder=4)
+            sb = Basis(m, base, intorder=4)
+        except Exception as ex:
+            ctx.fail(f'elem=ElementVector({bname}):basis-exception', f'{type(ex).__name__}: {ex}', {'kind': kind, 'element': bname})
+            continue
+        dim = ev.dim
+        has_edges = m.dim() == 3
+        sn, vn = _local_names(base, has_edges), _local_names(ev, has_edges)
+        data = {'kind': kind, 'element': f'ElementVector({bname}, {dim})', 'p': m.p.tolist(), 't': m.t.tolist()}
+        ctx.count(('vector-names', kind, bname, m.t.tolist()), nontrivial=max(base.nodal_dofs, base.edge_dofs, base.facet_dofs, base.interior_dofs) > 1)
+        truth = {}                                           # global DOF -> name it must carry
+        bad = None
+        svals = [np.asarray(sb.basis[j][0].value) for j in range(len(sb.basis))]
+        for i in range(len(vb.basis)):
+            val = np.asarray(vb.basis[i][0].value)           # (dim, nel, nqp)
+            comps = [k for k in range(dim) if np.abs(val[k]).max() > 1e-12]
+            js = [j for j in range(len(svals)) if comps and np.allclose(val[comps[0]], svals[j], atol=1e-10)]
+            if len(comps) != 1 or len(js) != 1:
+                bad = bad or (i, f'local function {i} has non-zero components {comps} and equals the scalar base functions {js}')
+                continue
+            want = f'{sn[js[0]]}^{comps[0] + 1}'
+            for e in range(m.t.shape[1]):
+                truth[int(vb.element_dofs[i, e])] = want
+            if vn[i] != want and bad is None:
+                bad = (i, f'local basis function {i} is component {comps[0] + 1} of the base function "{sn[js[0]]}" but is named "{vn[i]}"')
+        if bad:
+            ctx.fail('names:vector-component', f'ElementVector({bname}, {dim}) on {type(m).__name__}: {bad[1]}; queries by DOF name select '
+                     'functions of another component / another base DOF', dict(data, local=bad[0], dofnames=list(ev.dofnames)))
+            continue
+        # the queries by name against the truth
+        allE = np.arange(m.t.shape[1])
+        bf = m.boundary_facets()
+        F = bf[:max(1, len(bf) // 2)]
+        for nm in sorted(set(truth.values())):
+            T = {d for d, x in truth.items() if x == nm}
+            view = vb.get_dofs(facets=F)
+            flat = set(int(x) for x in view.flatten())
+            chk = [('get_dofs(elements=all).all', vb.get_dofs(elements=allE).all([nm]), T),
+                   ('get_dofs(facets=F).all', view.all([nm]), flat & T),
+                   ('get_dofs(facets=F).keep(..).flatten', view.keep([nm]).flatten(), flat & T),
+                   ('get_dofs(facets=F).drop(..).flatten', view.drop([nm]).flatten(), flat - T),
+                   ('get_dofs(facets=F, skip=..).flatten', vb.get_dofs(facets=F, skip=[nm]).flatten(), flat - T)]
+            for what, got, want in chk:
+                got = sorted(int(x) for x in np.asarray(got).ravel())
+                if got != sorted(want):
+                    ctx.fail('names:vector-component', f'ElementVector({bname}, {dim}) on {type(m).__name__}: {what} with name "{nm}" gives {got[:10]}... '
+                             f'but the DOFs whose basis function is that component of that base function are {sorted(want)[:10]}...',
+                             dict(data, name=nm, call=what, facets=np.asarray(F).tolist(), got=got, want=sorted(want)))
+                    break
+
+
+def _graded(rng, n, ratio):
+    """1-D grid on [0, L]: cell sizes grow geometrically from both ends towards the middle (or from one end), ratio up to `ratio`"""
+    q = ratio ** (1.0 / max(1, n - 1))
+    h = np.array([q ** k for k in range(n)])
+    mode = int(rng.integers(3))
+    if mode == 0:
+        hs = h
+    elif mode == 1:
+        hs = h[::-1]
+    else:
+        hs = np.concatenate([h, h[::-1]])
+    x = np.concatenate([[0.0], np.cumsum(hs)])
+    return x / x[-1] * float(rng.choice([1.0, 2.5])) + float(rng.choice([0.0, -1.0]))
+
+
+def oracle_default_tags(ctx, rng):
+    """with_defaults() on meshes graded in ALL directions (isotropic cells at the corners, size ratio up to 1000:1): the tags left /
+    right / bottom / top / front / back are exactly the boundary facets on that side of the bounding box (coordinate predicate), and
+    get_dofs by tag name, by the stored index array and by the predicate agree"""
+    import skfem
+    import skfem.element as E
+    from skfem import Basis
+    for kind in ('tri', 'quad', 'hex', 'tet', 'line'):
+        for rep in range(2):
+            ratio = float(rng.choice([30.0, 300.0, 1000.0]))
+            n = int(rng.integers(6, 9)) if kind in ('hex', 'tet') else int(rng.integers(8, 14))
+            g = _graded(rng, n, ratio)                   # the SAME grading along every axis: cells on the diagonal are isotropic
+            if kind in ('hex', 'tet') and len(g) > 9:
+                g = _graded_trim(g)
+            if not _check_default_tags(ctx, kind, g, ratio):
+                return
+
+
+def _check_default_tags(ctx, kind, g, ratio):
+    import skfem
+    import skfem.element as E
+    from skfem import Basis
+    names = [('left', 'right'), ('bottom', 'top'), ('front', 'back')]
+    g = np.asarray(g, dtype=float)
+    if True:
+        if True:
+            try:
+                if kind == 'line':
+                    m, el = skfem.MeshLine(g), E.ElementLineP2()
+                elif kind == 'tri':
+                    m, el = skfem.MeshTri.init_tensor(g, g), E.ElementTriP2()
+                elif kind == 'quad':
+                    m, el = skfem.MeshQuad.init_tensor(g, g), E.ElementQuad2()
+                elif kind == 'hex':
+                    m, el = skfem.MeshHex.init_tensor(g, g, g), E.ElementHex1()
+                else:
+                    m, el = skfem.MeshTet.init_tensor(g, g, g), E.ElementTetP1()
+            except Exception:
+                return True
+            data = {'kind': kind, 'grid': g.tolist(), 'ratio': ratio}
+            try:
+                md = m.with_defaults()
+            except Exception as ex:
+                ctx.fail('retag:with_defaults', f'{type(m).__name__}.with_defaults() raises {type(ex).__name__}: {ex} on a graded tensor mesh', data)
+                return True
+            ctx.count(('default-tags', kind, g.tolist()), nontrivial=True)
+            ctx.hist('default-tags grading', int(ratio))
+            b = Basis(md, el)
+            mid = md.p[:, md.facets].mean(axis=1)
+            bfs = md.boundary_facets()
+            for d in range(md.p.shape[0]):
+                lo, hi = float(md.p[d].min()), float(md.p[d].max())
+                for nm, side in zip(names[d], (lo, hi)):
+                    want = np.array([f for f in bfs if abs(mid[d, f] - side) <= 1e-12 * max(1.0, abs(side))], dtype=np.int64)
+                    got = np.sort(np.asarray((md.boundaries or {}).get(nm, np.array([], dtype=np.int64))).astype(np.int64))
+                    if got.tolist() != want.tolist():
+                        inter = [int(f) for f in got if f not in set(bfs.tolist())]
+                        ctx.fail('retag:default-tags', f'{type(md).__name__}.with_defaults() on a mesh graded {int(ratio)}:1 towards its sides: tag "{nm}" holds '
+                                 f'{len(got)} facets, the boundary facets with x[{d}] == {side} are {len(want)} ({len(inter)} tagged facets are interior facets); '
+                                 'the tag, the index array and the coordinate predicate no longer denote the same facets',
+                                 dict(data, tag=nm, got=got.tolist()[:40], want=want.tolist()[:40]))
+                        return False
+                    byname = np.asarray(b.get_dofs(nm).flatten()).tolist()
+                    bypred = np.asarray(b.get_dofs(lambda x, d=d, side=side: np.abs(x[d] - side) <= 1e-12 * max(1.0, abs(side))).flatten()).tolist()
+                    byarr = np.asarray(b.get_dofs(want.astype(np.int32)).flatten()).tolist()
+                    if not (byname == bypred == byarr):
+                        ctx.fail('retag:default-tags', f'{type(md).__name__} graded {int(ratio)}:1: get_dofs("{nm}") gives {len(byname)} DOFs, by predicate '
+                                 f'{len(bypred)}, by index array {len(byarr)}', dict(data, tag=nm))
+                        return False
+    return True
+
+
+def _graded_trim(g):
+    return g[:9] if len(g) > 9 else g
 
 
 def _try_all(ctx, head, defs):
@@ -1144,6 +1515,13 @@ def replay(ctx, data):
     """re-run the set-based oracle (closure, names, complement, default) on the recorded mesh and element"""
     from .. import c04_elems as EL
     inp = data['input']
+    if data.get('key') == 'retag:default-tags' and 'grid' in inp:
+        _check_default_tags(ctx, inp['kind'], inp['grid'], inp.get('ratio', 0))
+        return
+    if data.get('key') == 'names:vector-component':
+        for k in range(3):
+            oracle_vector_names(ctx, np_seed(ctx, 7 + k))
+        return
     if 'p' not in inp:
         return run(ctx)
     import skfem.element as _E
